@@ -712,5 +712,5 @@ PROPS = {
     },
 }
 
-HOOK_COMMITS = ["9bb2102", "a056c58", "25c3aff", "24644df", "9cc9f64", "baf5f6a", "26ae716", "f518c42", "27a34b3", "add05e9", "b59948c"]
+HOOK_COMMITS = ["9bb2102", "a056c58", "25c3aff", "24644df", "9cc9f64", "baf5f6a", "26ae716", "f518c42", "27a34b3", "add05e9", "b59948c", "7cd7bca"]
 NOT_YET = {}
